@@ -90,7 +90,7 @@ def parse_tlc(out):
     m = re.search(r"Error: Invariant (\S+) is violated", out)
     if m:
         res["violated"] = m.group(1)
-    m = re.search(r"Error: (Temporal properties were violated|Action property \S+ is violated)", out)
+    m = re.search(r"Error: (Temporal properties were violated|Action property .*? is violated)", out)
     if m:
         res["violated"] = m.group(1)
     if "Model checking completed. No error has been found." in out:
@@ -143,6 +143,43 @@ def run_model(name, module, cfg, timeout_s, workers=None, need=()):
         json.dump(r, open(cpath, "w"))
     log("model %s: %d distinct states, %d generated, %.1fs%s" % (name, r["distinct"], r["states_generated"], r["wall_s"],
         "" if r["ok"] else " VIOLATED " + str(r["violated"])))
+    return r
+
+def run_proof(name, modules, main, timeout_s=900):
+    """Checks a TLAPS proof (tlapm) on a scratch copy of the given modules; cached by their content."""
+    os.makedirs(CACHE, exist_ok=True)
+    h = hashlib.sha256()
+    for mname in modules:
+        h.update(open(os.path.join(SPEC, mname), "rb").read())
+    cpath = os.path.join(CACHE, "proof-%s-%s.json" % (name, h.hexdigest()[:20]))
+    if os.path.exists(cpath) and not os.environ.get("VERIF_NOCACHE"):
+        r = json.load(open(cpath))
+        r["cached"] = True
+        return r
+    d = os.path.join(WORK, "tlaps-" + name)
+    shutil.rmtree(d, ignore_errors=True)
+    os.makedirs(d)
+    for mname in modules:
+        shutil.copy(os.path.join(SPEC, mname), d)
+    t0 = time.time()
+    try:
+        p = sh(["tlapm", "--threads", "8", "--cleanfp", main], timeout=timeout_s, cwd=d)
+    except subprocess.TimeoutExpired:
+        raise ToolError("tlapm timed out on %s" % main)
+    out = p.stdout.decode(errors="replace")
+    m = re.search(r"All (\d+) obligations? proved", out)
+    f = re.search(r"(\d+)/(\d+) obligations? failed", out)
+    r = {"name": name, "module": main, "ok": bool(m) and p.returncode == 0, "obligations": int(m.group(1)) if m else (int(f.group(2)) if f else 0),
+         "failed": int(f.group(1)) if f else 0, "wall_s": round(time.time() - t0, 1), "cached": False}
+    if not m and not f:
+        open(os.path.join(WORK, "tlapm-%s.log" % name), "w").write(out)
+        raise ToolError("tlapm did not complete on %s (log: work/tlapm-%s.log)" % (main, name))
+    shutil.rmtree(d, ignore_errors=True)
+    if r["ok"]:
+        json.dump(r, open(cpath, "w"))
+    else:
+        open(os.path.join(WORK, "tlapm-%s.log" % name), "w").write(out)
+    log("proof %s: %d obligations, %d failed, %.1fs" % (name, r["obligations"], r["failed"], r["wall_s"]))
     return r
 
 # ---------------------------------------------------------------------------
